@@ -254,7 +254,10 @@ static m_evt_cb handlers[] = { h0, h1, h2, h3 };
 #include <semaphore.h>
 #define NGATE 32
 static sem_t task_gate[NGATE]; static volatile int task_waiting[NGATE];
-static int task_body(int g) { __atomic_add_fetch(&task_waiting[g], 1, __ATOMIC_SEQ_CST); sem_wait(&task_gate[g]); return 7; }
+/* task_expected: task threads handed to the pool per gate; task_entered: bodies that have reached their gate */
+static volatile int task_expected[NGATE], task_entered[NGATE];
+static int task_body(int g) { __atomic_add_fetch(&task_waiting[g], 1, __ATOMIC_SEQ_CST); __atomic_add_fetch(&task_entered[g], 1, __ATOMIC_SEQ_CST); sem_wait(&task_gate[g]); return 7; }
+static void wait_parked(int g) { for (int i = 0; i < 15000 && task_entered[g] < task_expected[g]; i++) usleep(1000); }
 #define TF(g) static int task_fn_##g(void *up) { (void)up; return task_body(g); }
 TF(0) TF(1) TF(2) TF(3) TF(4) TF(5) TF(6) TF(7) TF(8) TF(9) TF(10) TF(11) TF(12) TF(13) TF(14) TF(15) TF(16) TF(17) TF(18) TF(19)
 TF(20) TF(21) TF(22) TF(23) TF(24) TF(25) TF(26) TF(27) TF(28) TF(29) TF(30) TF(31)
@@ -266,6 +269,20 @@ int __real_pthread_join(pthread_t th, void **ret);
 int __wrap_pthread_join(pthread_t th, void **ret) {
     for (int g = 0; g < NGATE; g++) while (task_waiting[g] > 0) { __atomic_sub_fetch(&task_waiting[g], 1, __ATOMIC_SEQ_CST); sem_post(&task_gate[g]); }
     return __real_pthread_join(th, ret);
+}
+/* the context's task pool is lazy: it adds a worker only when every worker is busy RUNNING a task, not counting tasks still queued. Two tasks
+   started back to back can therefore share one worker, and with bodies that park until the script fires them the second one would never start.
+   The scripted world gives every started task its own thread: wait until the worker has taken the task before the library goes on. */
+static int gate_of(long m, unsigned long long key);
+int __real_m_thpool_add(m_thpool_t *pool, m_thpool_task task, void *arg);
+int __wrap_m_thpool_add(m_thpool_t *pool, m_thpool_task task, void *arg) {
+    ev_src_t *ts = (ev_src_t *)arg;          /* the core's only use of the pool: task_thread(src) */
+    int g = (ts && ts->type == M_SRC_TYPE_TASK && ts->mod) ? gate_of(mod_index(ts->mod), (unsigned long long)ts->task_src.tid.tid) : -1;
+    if (g >= 0) __atomic_add_fetch(&task_expected[g], 1, __ATOMIC_SEQ_CST);
+    int r = __real_m_thpool_add(pool, task, arg);
+    if (r != 0 && g >= 0) __atomic_sub_fetch(&task_expected[g], 1, __ATOMIC_SEQ_CST);
+    if (r == 0) for (int i = 0; i < 15000 && m_thpool_length(pool) > 0; i++) usleep(1000);
+    return r;
 }
 static int gate_of(long m, unsigned long long key) { return (int)((m * 4 + (long)(key % 4)) % NGATE); }
 static int task_fn(void *up) { (void)up; return 7; }
@@ -327,7 +344,7 @@ static ev_src_t *find_pid_src(int m, unsigned long long key) {
     return k.pid_src.pid.pid ? m_bst_find(modptr[m]->srcs[M_SRC_TYPE_PID], &k) : NULL;
 }
 static int closed_ufds(void) { int n = 0; for (int i = 0; i < NUFD; i++) n += ufd_closed[i]; return n; }
-static void wait_readable(int fd) { struct pollfd p = { fd, POLLIN, 0 }; poll(&p, 1, 2000); }
+static void wait_readable(int fd) { struct pollfd p = { fd, POLLIN, 0 }; poll(&p, 1, 15000); }   /* returns as soon as readable; the bound only matters on an overloaded machine */
 
 static void do_env(call_t *c) {
     const char *o = c->tok[0];
@@ -347,7 +364,7 @@ static void do_env(call_t *c) {
         }
         if (m < 0 || m >= MAXMOD) return;
         if (!modptr[m] || m_mod_is(modptr[m], M_MOD_ZOMBIE)) {
-            if (t == M_SRC_TYPE_TASK) { int g = gate_of(m, key); for (int i = 0; i < 20 && task_waiting[g] == 0; i++) usleep(1000); if (task_waiting[g] > 0) { __atomic_sub_fetch(&task_waiting[g], 1, __ATOMIC_SEQ_CST); sem_post(&task_gate[g]); { struct timespec t0, t1; clock_gettime(CLOCK_MONOTONIC, &t0); do { usleep(50000); clock_gettime(CLOCK_MONOTONIC, &t1); } while (t1.tv_sec - t0.tv_sec < 8); }; } }
+            if (t == M_SRC_TYPE_TASK) { int g = gate_of(m, key); wait_parked(g); if (task_waiting[g] > 0) { __atomic_sub_fetch(&task_waiting[g], 1, __ATOMIC_SEQ_CST); sem_post(&task_gate[g]); { struct timespec t0, t1; clock_gettime(CLOCK_MONOTONIC, &t0); do { usleep(50000); clock_gettime(CLOCK_MONOTONIC, &t1); } while (t1.tv_sec - t0.tv_sec < 8); }; } }
             return;
         }
         if (t == M_SRC_TYPE_PID) {                      /* the watched process dies */
@@ -361,7 +378,7 @@ static void do_env(call_t *c) {
         if (t == M_SRC_TYPE_TASK) {
             /* let ONE parked task body of (m, key) finish; with an armed source wait for its completion event */
             int g = gate_of(m, key);
-            for (int i = 0; i < ((s && s->ev) ? 200 : 20) && task_waiting[g] == 0; i++) usleep(1000);   /* the thread may still be starting */
+            wait_parked(g);                                  /* a thread handed to the pool may still be on its way to the gate */
             if (task_waiting[g] > 0) { __atomic_sub_fetch(&task_waiting[g], 1, __ATOMIC_SEQ_CST); sem_post(&task_gate[g]); if (!s || !s->ev) { struct timespec t0, t1; clock_gettime(CLOCK_MONOTONIC, &t0); do { usleep(50000); clock_gettime(CLOCK_MONOTONIC, &t1); } while (t1.tv_sec - t0.tv_sec < 8); }; }   /* an orphan thread: leave the sanitizer time to report */
             if (s && s->ev) wait_readable(s->task_src.f.fd);
             return;
@@ -511,7 +528,7 @@ static int exec_call(proc_t *pr, int idx, m_evt_t **cur, int ncur) {
             m_src_pid_t pd = { pid_of(a, key, present ? 1 : 2), 0 }; r = m_mod_src_register_pid(H(a), &pd, fl, up); break; }
         case M_SRC_TYPE_TASK: { m_src_task_t tk = { (int)key, key ? task_fns[gate_of(a, key)] : NULL }; r = m_mod_src_register_task(H(a), &tk, fl, up);
             /* a RUNNING module starts the task thread at once: wait until its body is parked at the gate, so that what follows is ordered after it */
-            if (r == 0 && H(a) && m_mod_is(H(a), M_MOD_RUNNING)) for (int i = 0; i < 500 && task_waiting[gate_of(a, key)] == 0; i++) usleep(1000);
+            if (r == 0 && H(a) && m_mod_is(H(a), M_MOD_RUNNING)) wait_parked(gate_of(a, key));
             break; }
         case M_SRC_TYPE_THRESH: { m_src_thresh_t th = { key, 0 }; r = m_mod_src_register_thresh(H(a), &th, fl, up); break; }
         default: break;
@@ -633,7 +650,7 @@ int main(int argc, char **argv) {
             pid_t pid = fork();
             if (pid == 0) {
                 if (ef) dup2(fileno(ef), 2);
-                for (int g = 0; g < NGATE; g++) { sem_init(&task_gate[g], 0, 0); task_waiting[g] = 0; }
+                for (int g = 0; g < NGATE; g++) { sem_init(&task_gate[g], 0, 0); task_waiting[g] = 0; task_expected[g] = 0; task_entered[g] = 0; }
                 memset(pid_child, 0, sizeof(pid_child)); memset(pid_dead, 0, sizeof(pid_dead));
                 setvbuf(stdout, NULL, _IOLBF, 0); run_case(); fflush(stdout);
                 for (int m = 0; m < MAXMOD; m++) for (int k = 1; k < NPIDKEY; k++) if (pid_child[m][k]) kill(pid_child[m][k], SIGKILL);
